@@ -414,6 +414,11 @@ const FAMILIES: &[&str] = &[
     "refchain",  // len reference objects 10 -> 11 -> ..; reached from /Contents, /Resources, /Outlines, /Dests, /Parent
     "fontchain", // /Font dictionary with len entries F10.. each a font whose /ToUnicode is absent
     "length",    // the content stream's /Length is a reference into a chain of len reference objects
+    // acyclic graphs with SHARING: every level reaches the next one twice, so there are 2^len paths through len+1
+    // nodes.  A walker that remembers the nodes it has seen is linear; one that only guards the current path is not.
+    "kidsdouble",     // name tree: every /Kids array lists the next level twice
+    "firstnext",      // outline: every item has the next one as /First and as /Next
+    "pagekidsdouble", // page tree: every /Kids array lists the next level twice (the last level holds the page once)
 ];
 
 fn rf(n: u32) -> Object {
@@ -470,6 +475,28 @@ fn build_family(fam: &str, len: u32) -> Document {
                     Object::Array(vec![Object::string_literal("t"), Object::Dictionary(dict(vec![("D", dest())]))]),
                 )])),
             },
+            "kidsdouble" => match nxt {
+                Some(x) => Object::Dictionary(dict(vec![("Kids", Object::Array(vec![x.clone(), x]))])),
+                None => Object::Dictionary(dict(vec![(
+                    "Names",
+                    Object::Array(vec![Object::string_literal("t"), Object::Dictionary(dict(vec![("D", dest())]))]),
+                )])),
+            },
+            "firstnext" => {
+                let mut n = dict(vec![("Title", Object::string_literal("a")), ("Dest", dest())]);
+                if let Some(x) = nxt {
+                    n.set("First", x.clone());
+                    n.set("Next", x);
+                }
+                Object::Dictionary(n)
+            }
+            "pagekidsdouble" => {
+                let kids = match nxt {
+                    Some(x) => vec![x.clone(), x],
+                    None => vec![rf(3)],
+                };
+                Object::Dictionary(dict(vec![("Type", nm("Pages")), ("Kids", Object::Array(kids)), ("Count", Object::Integer(1))]))
+            }
             "kidswide" => {
                 if i == HEAD {
                     Object::Dictionary(dict(vec![("Kids", Object::Array((HEAD + 1..=last).map(rf).collect()))]))
@@ -506,9 +533,9 @@ fn build_family(fam: &str, len: u32) -> Document {
     }
     match fam {
         "parent" => page.set("Parent", rf(HEAD)),
-        "first" | "next" => outlines.set("First", rf(HEAD)),
-        "kids" | "kidswide" => cat.set("Names", Object::Dictionary(dict(vec![("Dests", rf(HEAD))]))),
-        "pagekids" => root.set("Kids", Object::Array(vec![rf(HEAD)])),
+        "first" | "next" | "firstnext" => outlines.set("First", rf(HEAD)),
+        "kids" | "kidswide" | "kidsdouble" => cat.set("Names", Object::Dictionary(dict(vec![("Dests", rf(HEAD))]))),
+        "pagekids" | "pagekidsdouble" => root.set("Kids", Object::Array(vec![rf(HEAD)])),
         "contents" => page.set("Contents", Object::Array((0..len).map(|_| rf(4)).collect::<Vec<_>>())),
         "annots" => page.set("Annots", Object::Array((HEAD..=last).map(rf).collect::<Vec<_>>())),
         "refchain" => {
@@ -686,6 +713,11 @@ fn gen_chains(args: &[String]) {
         let mut ls = lens.clone();
         for _ in 0..(if thorough { 6 } else { 2 }) {
             ls.push(2 + rng.below(3000) as u32);
+        }
+        if fam.ends_with("double") || *fam == "firstnext" {
+            // sharing: the number of paths is what grows, a few lengths say it all (and a walker that does
+            // follow every path costs one time limit per call, not per length)
+            ls = vec![30, 300];
         }
         for l in ls {
             // wide arrays of 100 000 copies of the text stream only cost time in the content parser
